@@ -486,6 +486,8 @@ func u64At(b []byte, word int) (uint64, bool) {
 
 type finding struct{ sig, part, msg string }
 
+var stats struct{ readings, growth, probesGrowth int64 }
+
 func opName(f string, op int) string {
 	if oi, ok := opInfo[f][vm.OpCode(op)]; ok {
 		return oi.Name
@@ -535,11 +537,11 @@ func judge(k *kase, o obs) []finding {
 	switch k.Expect {
 	case "stack-ok":
 		if o.Kind == "stack-overflow" {
-			add("C11:stack-limit:early-overflow:"+opName(k.Fork, k.Op), fmt.Sprintf("stack overflow reported although the stack stays within 1024 items (%s): %s", k.Note, o.ErrText))
+			add("C11:stack-limit:early-overflow", fmt.Sprintf("stack overflow reported although the stack stays within 1024 items (%s): %s", k.Note, o.ErrText))
 		}
 	case "stack-overflow":
 		if o.Kind != "stack-overflow" {
-			add("C11:stack-limit:exceeds-1024:"+opName(k.Fork, k.Op), fmt.Sprintf("operand stack grew beyond 1024 items without a stack fault (%s): err=%q", k.Note, o.ErrText))
+			add("C11:stack-limit:exceeds-1024", fmt.Sprintf("operand stack grew beyond 1024 items without a stack fault (%s): err=%q", k.Note, o.ErrText))
 		}
 	case "depth-ret":
 		if !failed && len(o.Ret) == 32 {
@@ -584,19 +586,21 @@ func judgeSandwich(k *kase, o obs) []finding {
 		return nil // the program was not the sandwich (e.g. the op consumed the epilogue)
 	}
 	name := opName(k.Fork, k.Op)
+	stats.readings++
 	if g2 > g1 {
 		fs = append(fs, finding{"C11:gas-increases-in-frame:" + name, k.Part,
 			fmt.Sprintf("GAS read %d before and %d after %s in the same frame (%s)", g1, g2, name, k.Note)})
 		return fs
 	}
 	if m2 > m1 {
+		stats.growth++
 		t := opInfo[k.Fork]
 		consts := t[vm.MSIZE].ConstGas + t[vm.GAS].ConstGas + uint64(k.NArgs)*t[vm.PUSH1].ConstGas
 		charged := new(big.Int).SetUint64(g1 - g2)
 		charged.Sub(charged, new(big.Int).SetUint64(consts))
 		need := new(big.Int).Sub(memFee(m2/32), memFee(m1/32))
 		if charged.Cmp(need) < 0 {
-			fs = append(fs, finding{"C11:memory-growth-undercharged:" + name, k.Part,
+			fs = append(fs, finding{"C11:memory-growth-undercharged:" + gasFnName(t[vm.OpCode(k.Op)]), k.Part,
 				fmt.Sprintf("%s grew memory from %d to %d bytes for %s gas, below 3*dw + d(w^2/512) = %s (%s)", name, m1, m2, charged, need, k.Note)})
 		}
 	}
@@ -659,6 +663,7 @@ func judgeProbe(k *kase, o obs) []finding {
 	if nw <= old {
 		return nil
 	}
+	stats.probesGrowth++
 	need := new(big.Int).Sub(memFee(nw), memFee(old))
 	if new(big.Int).SetUint64(o.DynGas).Cmp(need) >= 0 {
 		return nil
@@ -931,6 +936,9 @@ func run(c *fw.Ctx) {
 		}
 	}
 	c.NontrivialN(r.nontriv)
+	c.Count("sandwich_gas_readings_judged", stats.readings)
+	c.Count("sandwich_memory_growth_judged", stats.growth)
+	c.Count("gas_function_probes_with_growth_judged", stats.probesGrowth)
 	c.Note("outside_bound", "programs longer than 3 bytes outside the structural families; gas limits other than the listed ones; call data other than listed; wall-clock of expensive precompiles")
 }
 
@@ -1044,8 +1052,11 @@ func (r *runner) partOps() {
 			switch {
 			case oi.Pops <= 4:
 				set = bset13()
-			case oi.Pops <= 9 && isDupSwap(oi.Op) && !r.c.Thorough():
+			case oi.Pops <= 9 && isDupSwap(oi.Op): // value-agnostic
 				set = bset2()
+				if r.c.Thorough() {
+					set = bset3()
+				}
 			case oi.Pops <= 9 && oi.Op == vm.AUTHCALL && !r.c.Thorough():
 				set = bset3()
 			case oi.Pops <= 9:
